@@ -127,6 +127,9 @@ func (e *refEnv) call(n *rnode, cur any, sc *refScope) (any, int) {
 			}
 			total = total.Add(d)
 		}
+		if total.IsNaN() || total.IsInf(0) {
+			return nil, ecNaN // overflow past the decimal128 range
+		}
 		if n.str == "sum" {
 			return total, ecNone
 		}
